@@ -19,3 +19,6 @@
   (ite (= f fid.crypto.md5.New) #x0000000000000010
   (ite (= f fid.golang.org.x.crypto.md4.New) #x0000000000000010
   #x0000000000000000))))))
+
+;; substring relation shared by the models of strings.Contains / Split / SplitN / Index
+(declare-fun str_contains (Str Str) Bool)
